@@ -60,6 +60,15 @@ Proof.
   apply in_remove_key in Hi. destruct Hi as [_ Hi]. apply Hi. reflexivity.
 Qed.
 
+Lemma remove_key_notin k m : lookup k m = None -> remove_key k m = m.
+Proof.
+  unfold remove_key. induction m as [|[k' l'] t IH]; cbn; [reflexivity|].
+  destruct (Nat.eqb_spec k' k) as [->|Hne]; [discriminate|]. intros H. cbn. rewrite (IH H). reflexivity.
+Qed.
+
+Lemma remove_key_head k i m : remove_key k ((k, i) :: m) = remove_key k m.
+Proof. unfold remove_key. cbn. rewrite Nat.eqb_refl. reflexivity. Qed.
+
 Lemma in_remove_id j i l : In j (remove_id i l) <-> In j l /\ j <> i.
 Proof.
   unfold remove_id. rewrite filter_In. split; intros [H1 H2]; split; try exact H1.
@@ -101,7 +110,7 @@ Record P (cs : nat -> cst) (m : list (nat * nat)) (ch : nat -> chst) (fl : list 
 
 Definition Inv (s : st) : Prop := P (cs s) (reqs s) (chan s) (inflight s) (ckey s).
 
-Lemma P_init : Inv init.
+Lemma P_init b : Inv (init_b b).
 Proof.
   constructor; cbn; try (constructor; fail); try discriminate.
   - intros k l. split; [intros []|discriminate].
@@ -231,6 +240,31 @@ Proof.
   - intros l0 H. cases_on l0 i; [exact Hc'|]. apply Hclosed. exact H.
 Qed.
 
+(* call() of a would-be leader whose inner.call() panics: registered and released again *)
+Lemma P_call_panic cs m ch fl ck i k :
+  P cs m ch fl ck -> cs i = Idle ->
+  P (upd cs i Done) m (upd ch i Closed) fl (upd ck i (Some k)).
+Proof.
+  intros [Hnd Hmap Hopen Hfl Hflnd Hwait Hlead Hidle Hsent Hclosed] Hi.
+  assert (Hchi : ch i = NoChan) by (apply Hidle; exact Hi).
+  constructor.
+  - exact Hnd.
+  - intros k0 l0. rewrite Hmap. cases_on l0 i; [|tauto]. split; congruence.
+  - intros l0. cases_on l0 i.
+    + split; [discriminate|intros [k0 H]; discriminate].
+    + apply Hopen.
+  - intros j. rewrite Hfl. cases_on j i; [|tauto]. split; intros [k0 H]; congruence.
+  - exact Hflnd.
+  - intros j l0. cases_on j i; [discriminate|]. intros H.
+    destruct (Hwait j l0 H) as (H1 & H2 & H3).
+    assert (l0 <> i) by (intros ->; congruence).
+    rewrite !upd_other by assumption. auto.
+  - intros j k0. cases_on j i; [discriminate|]. apply Hlead.
+  - intros j. cases_on j i; [discriminate|]. apply Hidle.
+  - intros l0 o. cases_on l0 i; [discriminate|]. apply Hsent.
+  - intros l0. cases_on l0 i; [intros _; left; reflexivity|]. apply Hclosed.
+Qed.
+
 Lemma lookup_leader s k l : Inv s -> (lookup k (reqs s) = Some l <-> cs s l = Leading k).
 Proof.
   intros H. rewrite <- (p_map _ _ _ _ _ H). split.
@@ -246,22 +280,23 @@ Proof.
     apply (lookup_leader s k l H) in E. exfalso. exact (Hf l E).
 Qed.
 
+
+Arguments wake_waiters : simpl never.
+
 Lemma inv_step s e : Inv s -> Inv (step_st s e).
 Proof.
-  intros H. unfold step_st. destruct e as [i k|i|i|i o]; cbn [step fst].
+  intros H. unfold step_st. destruct e as [i k|i|i|i o|i k|i]; cbn [step fst].
   - unfold call. destruct (cs s i) eqn:Ei; try exact H.
     destruct (lookup k (reqs s)) as [l|] eqn:El; unfold Inv; cbn.
     + apply P_waiter; [exact H|exact Ei|]. apply lookup_leader; assumption.
     + apply P_leader; [exact H|exact Ei|]. apply lookup_free; assumption.
   - unfold poll. cbn. destruct (cs s i) as [|k|l| |] eqn:Ei; cbn [fst]; try exact H.
     + assert (Hlk : lookup k (reqs s) = Some i) by (apply lookup_leader; assumption).
-      destruct (gate s i) as [[]|] eqn:Eg; cbn [fst]; try exact H;
+      destruct (gate s i) as [[]|] eqn:Eg; try destruct (bomb s i) eqn:Eb; cbn [fst]; try exact H;
         unfold close_key; cbn; rewrite Hlk; unfold Inv; cbn;
-        (apply (P_leader_end _ _ _ _ _ i k); [exact H|exact Ei|]).
-      * left. eexists. repeat split; discriminate.
-      * left. eexists. repeat split; discriminate.
-      * right. auto.
-    + destruct (chan s l) eqn:Ec; cbn [fst]; try exact H; unfold Inv; cbn;
+        (apply (P_leader_end _ _ _ _ _ i k); [exact H|exact Ei|]);
+        first [right; split; [reflexivity|auto] | left; eexists; repeat split; discriminate].
+    + destruct (chan s l) eqn:Ec; try destruct (bomb s l) eqn:Eb; cbn [fst]; try exact H; unfold Inv; cbn;
         apply (P_waiter_end _ _ _ _ _ i l); auto.
   - unfold drop. cbn. destruct (cs s i) as [|k|l| |] eqn:Ei; try exact H.
     + assert (Hlk : lookup k (reqs s) = Some i) by (apply lookup_leader; assumption).
@@ -269,10 +304,75 @@ Proof.
       apply (P_leader_end _ _ _ _ _ i k); [exact H|exact Ei|]. right. auto.
     + unfold Inv; cbn. apply (P_waiter_end _ _ _ _ _ i l); auto.
   - unfold complete. destruct (gate s i); exact H.
+  - unfold call_panic. destruct (cs s i) eqn:Ei; try exact H.
+    destruct (lookup k (reqs s)) as [l|] eqn:El; cbn [fst].
+    + unfold call. rewrite Ei, El. unfold Inv; cbn.
+      apply P_waiter; [exact H|exact Ei|]. apply lookup_leader; assumption.
+    + unfold Inv; cbn. rewrite remove_key_head, (remove_key_notin _ _ El).
+      apply P_call_panic; [exact H|exact Ei].
+  - exact H.
 Qed.
 
-Lemma inv_run evs : Inv (run evs).
-Proof. unfold run. apply fold_left_inv; [apply P_init|intros; apply inv_step; assumption]. Qed.
+Lemma inv_run_b b evs : Inv (run_b b evs).
+Proof. unfold run_b. apply fold_left_inv; [apply P_init|intros; apply inv_step; assumption]. Qed.
+
+Lemma inv_fold evs s : Inv s -> Inv (fold_left step_st evs s).
+Proof. intros H. apply fold_left_inv; [exact H|intros; apply inv_step; assumption]. Qed.
+
+Lemma run_b_app b evs1 evs2 : run_b b (evs1 ++ evs2) = fold_left step_st evs2 (run_b b evs1).
+Proof. unfold run_b. apply fold_left_app. Qed.
+
+(* ---------- what an event can touch ---------- *)
+Definition subject (e : ev) : nat :=
+  match e with Call i _ | Poll i | Drop i | Complete i _ | CallPanic i _ | Arm i => i end.
+
+Lemma close_key_cs s k m : cs (close_key s k m) = cs s.
+Proof. unfold close_key. destruct (lookup k (reqs s)); reflexivity. Qed.
+
+Lemma cs_other s e j : subject e <> j -> cs (step_st s e) j = cs s j.
+Proof.
+  intros Hne. assert (Hj : j <> subject e) by congruence. clear Hne.
+  unfold step_st. destruct e as [i k|i|i|i o|i k|i]; cbn [step fst subject] in *.
+  - unfold call. destruct (cs s i); try reflexivity.
+    destruct (lookup k (reqs s)); cbn; apply upd_other; assumption.
+  - unfold poll. cbn. destruct (cs s i) as [|k|l| |]; cbn [fst]; try reflexivity.
+    + destruct (gate s i) as [[]|]; try destruct (bomb s i); cbn [fst cs]; try reflexivity;
+        rewrite upd_other by assumption; rewrite close_key_cs; reflexivity.
+    + destruct (chan s l); try destruct (bomb s l); cbn [fst cs]; try reflexivity; apply upd_other; assumption.
+  - unfold drop. cbn. destruct (cs s i) as [|k|l| |]; try reflexivity; cbn [cs].
+    + rewrite upd_other by assumption. rewrite close_key_cs. reflexivity.
+    + apply upd_other; assumption.
+  - unfold complete. destruct (gate s i); reflexivity.
+  - unfold call_panic. destruct (cs s i); try reflexivity.
+    destruct (lookup k (reqs s)); cbn [fst].
+    + unfold call. destruct (cs s i); try reflexivity.
+      destruct (lookup k (reqs s)); cbn; apply upd_other; assumption.
+    + cbn. apply upd_other; assumption.
+  - reflexivity.
+Qed.
+
+Lemma busy_step s e : busy (step_st s e) = busy s.
+Proof.
+  unfold step_st. destruct e as [i k|i|i|i o|i k|i]; cbn [step fst].
+  - unfold call. destruct (cs s i); try reflexivity. destruct (lookup k (reqs s)); reflexivity.
+  - unfold poll. cbn. destruct (cs s i) as [|k|l| |]; cbn [fst]; try reflexivity.
+    + destruct (gate s i) as [[]|]; try destruct (bomb s i); cbn [fst busy]; try reflexivity;
+        unfold close_key; cbn; destruct (lookup k (reqs s)); reflexivity.
+    + destruct (chan s l); try destruct (bomb s l); reflexivity.
+  - unfold drop. cbn. destruct (cs s i) as [|k|l| |]; try reflexivity; cbn [busy].
+    unfold close_key; cbn; destruct (lookup k (reqs s)); reflexivity.
+  - unfold complete. destruct (gate s i); reflexivity.
+  - unfold call_panic. destruct (cs s i); try reflexivity.
+    destruct (lookup k (reqs s)); cbn [fst]; [|reflexivity].
+    unfold call. destruct (cs s i); try reflexivity. destruct (lookup k (reqs s)); reflexivity.
+  - reflexivity.
+Qed.
+
+Lemma busy_run_b b evs : busy (run_b b evs) = b.
+Proof.
+  unfold run_b. apply (fold_left_inv step_st (fun s => busy s = b)); [reflexivity|].
+  intros s e H. rewrite busy_step. exact H.
+Qed.
 
 (* ---------- C11 clause 1: one inner call per key ---------- *)
 Definition leads (s : st) (k : nat) (i : nat) : bool :=
@@ -294,14 +394,14 @@ Proof.
   - apply IH; [exact Ht|]. intros x y Hx Hy. apply Hu; right; assumption.
 Qed.
 
-Lemma one_per_key evs :
-  let s := run evs in
+Lemma one_per_key b evs :
+  let s := run_b b evs in
   NoDup (inflight s) /\
   (forall i, In i (inflight s) <-> exists k, cs s i = Leading k) /\
   (forall i j k, cs s i = Leading k -> cs s j = Leading k -> i = j) /\
   (forall k, (length (filter (leads s k) (inflight s)) <= 1)%nat).
 Proof.
-  intros s. pose proof (inv_run evs) as H. fold s in H.
+  intros s. pose proof (inv_run_b b evs) as H. fold s in H.
   assert (Hu : forall i j k, cs s i = Leading k -> cs s j = Leading k -> i = j).
   { intros i j k Hi Hj. apply (lookup_leader s k i H) in Hi. apply (lookup_leader s k j H) in Hj. congruence. }
   repeat split.
@@ -315,6 +415,10 @@ Proof.
     destruct (cs s y) as [|ky| | |] eqn:Ey; try discriminate.
     apply Nat.eqb_eq in Hx, Hy. subst. exact (Hu x y k Ex Ey).
 Qed.
+
+Lemma map_entry_is_leader b evs k l :
+  lookup k (reqs (run_b b evs)) = Some l <-> cs (run_b b evs) l = Leading k.
+Proof. apply lookup_leader. apply inv_run_b. Qed.
 
 (* ---------- single steps ---------- *)
 Lemma call_waiter s i l k :
@@ -337,20 +441,25 @@ Proof.
 Qed.
 
 Lemma poll_leader_finish s l k o :
-  Inv s -> cs s l = Leading k -> gate s l = Some o -> o <> OPanic ->
+  Inv s -> cs s l = Leading k -> gate s l = Some o -> o <> OPanic -> bomb s l = false ->
   let s' := step_st s (Poll l) in
   snd (step s (Poll l)) = {| r := code o; val := Z.of_nat l |} /\
-  chan s' l = Sent o /\ cs s' l = Done /\ lookup k (reqs s') = None /\ ~ In l (inflight s').
+  chan s' l = Sent o /\ cs s' l = Done /\ lookup k (reqs s') = None /\ ~ In l (inflight s') /\
+  bomb s' = bomb s.
 Proof.
-  intros H Hl Hg Ho s'. unfold s', step_st. cbn [step]. unfold poll. cbn. rewrite Hl, Hg.
+  intros H Hl Hg Ho Hb s'. unfold s', step_st. cbn [step]. unfold poll. cbn. rewrite Hl, Hg, Hb.
   assert (Hlk : lookup k (reqs s) = Some l) by (apply lookup_leader; assumption).
   destruct o; [| |congruence]; unfold close_key; cbn; rewrite Hlk; cbn; rewrite !upd_same;
     (repeat split; [apply lookup_None; apply remove_key_absent|
                     rewrite in_remove_id; intros [_ Hc]; apply Hc; reflexivity]).
 Qed.
 
+Definition leader_fails (s : st) (l : nat) (e : ev) : Prop :=
+  e = Drop l \/ (e = Poll l /\ gate s l = Some OPanic) \/
+  (e = Poll l /\ gate s l <> None /\ bomb s l = true).
+
 Lemma leader_gone_step s l k e :
-  Inv s -> cs s l = Leading k -> (e = Drop l \/ (e = Poll l /\ gate s l = Some OPanic)) ->
+  Inv s -> cs s l = Leading k -> leader_fails s l e ->
   let s' := step_st s e in
   chan s' l = Closed /\ (cs s' l = Done \/ cs s' l = Dropped) /\
   lookup k (reqs s') = None /\ ~ In l (inflight s') /\
@@ -359,86 +468,84 @@ Lemma leader_gone_step s l k e :
 Proof.
   intros H Hl He s'. unfold s', step_st.
   assert (Hlk : lookup k (reqs s) = Some l) by (apply lookup_leader; assumption).
-  destruct He as [->|[-> Hg]]; cbn [step fst].
+  assert (Hfin : forall m, lookup k (remove_key k m) = None)
+    by (intros m; apply lookup_None; apply remove_key_absent).
+  assert (Hnin : forall fl, ~ In l (remove_id l fl))
+    by (intros fl; rewrite in_remove_id; intros [_ Hc]; apply Hc; reflexivity).
+  destruct He as [->|[[-> Hg]|[-> [Hg Hb]]]]; cbn [step fst].
   - unfold drop. cbn. rewrite Hl. unfold close_key; cbn; rewrite Hlk; cbn. rewrite !upd_same.
     repeat split; auto.
-    + apply lookup_None. apply remove_key_absent.
-    + rewrite in_remove_id. intros [_ Hc]. apply Hc. reflexivity.
     + intros i Hi. apply upd_other. exact Hi.
     + discriminate.
   - unfold poll. cbn. rewrite Hl, Hg. unfold close_key; cbn; rewrite Hlk; cbn. rewrite !upd_same.
     repeat split; auto.
-    + apply lookup_None. apply remove_key_absent.
-    + rewrite in_remove_id. intros [_ Hc]. apply Hc. reflexivity.
-    + intros i Hi. apply upd_other. exact Hi.
+    intros i Hi. apply upd_other. exact Hi.
+  - unfold poll. cbn. rewrite Hl, Hb. destruct (gate s l) as [[]|]; [| | |congruence];
+      unfold close_key; cbn; rewrite Hlk; cbn; rewrite !upd_same;
+      (repeat split; auto; intros i Hi; apply upd_other; exact Hi).
 Qed.
 
 Lemma poll_waiter s i l :
   cs s i = Waiting l ->
   let s' := step_st s (Poll i) in
   match chan s l with
-  | Sent o => snd (step s (Poll i)) = {| r := code o; val := Z.of_nat l |} /\ cs s' i = Done
+  | Sent o =>
+    if bomb s l
+    then snd (step s (Poll i)) = {| r := 5; val := -1 |} /\ cs s' i = Done /\ bomb s' l = false
+    else snd (step s (Poll i)) = {| r := code o; val := Z.of_nat l |} /\ cs s' i = Done /\ bomb s' l = false
   | Closed => snd (step s (Poll i)) = {| r := 3; val := -1 |} /\ cs s' i = Done
-  | _ => snd (step s (Poll i)) = {| r := 0; val := -1 |} /\ cs s' i = Waiting l /\ woken s' i = true
+  | _ => snd (step s (Poll i)) = {| r := 0; val := -1 |} /\ cs s' i = Waiting l /\
+         polled s' i = true /\ (busy s = true -> woken s' i = true)
   end.
 Proof.
   intros Hi s'. unfold s', step_st. cbn [step]. unfold poll. cbn. rewrite Hi.
-  destruct (chan s l); cbn; rewrite ?upd_same; auto.
+  destruct (chan s l); try destruct (bomb s l) eqn:Eb; cbn; rewrite ?upd_same; auto;
+    repeat split; auto; intros ->; apply upd_same.
 Qed.
 
 (* only l's own call/poll/drop touch the channel created by l *)
 Lemma chan_frame s e l :
-  Inv s -> e <> Poll l -> e <> Drop l -> (forall k, e <> Call l k) ->
+  Inv s -> e <> Poll l -> e <> Drop l -> (forall k, e <> Call l k) -> (forall k, e <> CallPanic l k) ->
   chan (step_st s e) l = chan s l.
 Proof.
-  intros H Hp Hd Hc. unfold step_st. destruct e as [i k|i|i|i o]; cbn [step fst].
+  intros H Hp Hd Hc Hcp. unfold step_st. destruct e as [i k|i|i|i o|i k|i]; cbn [step fst].
   - unfold call. destruct (cs s i) eqn:Ei; try reflexivity.
     destruct (lookup k (reqs s)); cbn; [reflexivity|].
     apply upd_other. intros ->. exact (Hc k eq_refl).
   - assert (l <> i) by congruence.
     unfold poll. cbn. destruct (cs s i) as [|k|l'| |] eqn:Ei; cbn [fst]; try reflexivity.
     + assert (Hlk : lookup k (reqs s) = Some i) by (apply lookup_leader; assumption).
-      destruct (gate s i) as [[]|]; cbn [fst]; try reflexivity;
+      destruct (gate s i) as [[]|]; try destruct (bomb s i); cbn [fst]; try reflexivity;
         unfold close_key; cbn; rewrite Hlk; cbn; apply upd_other; assumption.
-    + destruct (chan s l'); reflexivity.
+    + destruct (chan s l'); try destruct (bomb s l'); reflexivity.
   - assert (l <> i) by congruence.
     unfold drop. cbn. destruct (cs s i) as [|k|l'| |] eqn:Ei; try reflexivity.
     assert (Hlk : lookup k (reqs s) = Some i) by (apply lookup_leader; assumption).
     unfold close_key; cbn; rewrite Hlk; cbn; apply upd_other; assumption.
   - unfold complete. destruct (gate s i); reflexivity.
+  - unfold call_panic. destruct (cs s i) eqn:Ei; try reflexivity.
+    destruct (lookup k (reqs s)) eqn:El; cbn [fst].
+    + unfold call. rewrite Ei, El. reflexivity.
+    + cbn. apply upd_other. intros ->. exact (Hcp k eq_refl).
+  - reflexivity.
 Qed.
 
-(* a caller that is not Idle is not affected by Call; one that is Done/Dropped by nothing *)
+(* a caller that is Done/Dropped is changed by nothing, and neither is its channel *)
 Lemma finished_frozen s e l :
   Inv s -> (cs s l = Done \/ cs s l = Dropped) ->
   chan (step_st s e) l = chan s l /\ cs (step_st s e) l = cs s l.
 Proof.
   intros H Hl.
-  assert (Hcs : cs (step_st s e) l = cs s l).
-  { unfold step_st. destruct e as [i k|i|i|i o]; cbn [step fst].
-    - unfold call. destruct (cs s i) eqn:Ei; try reflexivity.
-      assert (l <> i) by (intros ->; destruct Hl; congruence).
-      destruct (lookup k (reqs s)); cbn; apply upd_other; assumption.
-    - unfold poll. cbn. destruct (cs s i) as [|k|l'| |] eqn:Ei; cbn [fst]; try reflexivity.
-      + assert (l <> i) by (intros ->; destruct Hl; congruence).
-        destruct (gate s i) as [[]|]; cbn [fst]; try reflexivity;
-          unfold close_key; cbn; destruct (lookup k (reqs s)); cbn; apply upd_other; assumption.
-      + assert (l <> i) by (intros ->; destruct Hl; congruence).
-        destruct (chan s l'); cbn; try reflexivity; apply upd_other; assumption.
-    - unfold drop. cbn. destruct (cs s i) as [|k|l'| |] eqn:Ei; try reflexivity;
-        assert (l <> i) by (intros ->; destruct Hl; congruence).
-      + unfold close_key; cbn; destruct (lookup k (reqs s)); cbn; apply upd_other; assumption.
-      + cbn. apply upd_other; assumption.
-    - unfold complete. destruct (gate s i); reflexivity. }
-  split; [|exact Hcs].
-  unfold step_st in *. destruct e as [i k|i|i|i o].
-  - destruct (Nat.eq_dec i l) as [->|Hne]; [|apply chan_frame; congruence].
-    cbn [step fst]. unfold call. destruct Hl as [Hl|Hl]; rewrite Hl; reflexivity.
-  - destruct (Nat.eq_dec i l) as [->|Hne]; [|apply chan_frame; congruence].
-    cbn [step fst]. unfold poll. cbn. destruct Hl as [Hl|Hl]; rewrite Hl; reflexivity.
-  - destruct (Nat.eq_dec i l) as [->|Hne]; [|apply chan_frame; congruence].
-    cbn [step fst]. unfold drop. cbn. destruct Hl as [Hl|Hl]; rewrite Hl; reflexivity.
-  - apply chan_frame; congruence.
+  destruct (Nat.eq_dec (subject e) l) as [He|He].
+  - unfold step_st. destruct e as [i k|i|i|i o|i k|i]; cbn [subject] in He; subst i; cbn [step fst].
+    + unfold call. destruct Hl as [Hl|Hl]; rewrite Hl; auto.
+    + unfold poll. cbn. destruct Hl as [Hl|Hl]; rewrite Hl; auto.
+    + unfold drop. cbn. destruct Hl as [Hl|Hl]; rewrite Hl; auto.
+    + unfold complete. destruct (gate s l); auto.
+    + unfold call_panic. destruct Hl as [Hl|Hl]; rewrite Hl; auto.
+    + auto.
+  - split; [|apply cs_other; exact He].
+    apply chan_frame; try exact H; intros; intros ->; apply He; reflexivity.
 Qed.
 
 Lemma frozen_run evs s l :
@@ -456,20 +563,14 @@ Qed.
 Lemma waiter_frame s e i l :
   cs s i = Waiting l -> e <> Poll i -> e <> Drop i -> cs (step_st s e) i = Waiting l.
 Proof.
-  intros Hi Hp Hd. unfold step_st. destruct e as [j k|j|j|j o]; cbn [step fst].
-  - unfold call. destruct (cs s j) eqn:Ej; try exact Hi.
-    assert (i <> j) by (intros ->; congruence).
-    destruct (lookup k (reqs s)); cbn; rewrite upd_other by assumption; exact Hi.
-  - assert (i <> j) by congruence.
-    unfold poll. cbn. destruct (cs s j) as [|k|l'| |] eqn:Ej; cbn [fst]; try exact Hi.
-    + destruct (gate s j) as [[]|]; cbn [fst]; try exact Hi;
-        unfold close_key; cbn; destruct (lookup k (reqs s)); cbn; rewrite upd_other by assumption; exact Hi.
-    + destruct (chan s l'); cbn; try exact Hi; rewrite upd_other by assumption; exact Hi.
-  - assert (i <> j) by congruence.
-    unfold drop. cbn. destruct (cs s j) as [|k|l'| |] eqn:Ej; try exact Hi.
-    + unfold close_key; cbn; destruct (lookup k (reqs s)); cbn; rewrite upd_other by assumption; exact Hi.
-    + cbn. rewrite upd_other by assumption. exact Hi.
-  - unfold complete. destruct (gate s j); exact Hi.
+  intros Hi Hp Hd.
+  destruct (Nat.eq_dec (subject e) i) as [He|He]; [|rewrite cs_other by exact He; exact Hi].
+  unfold step_st. destruct e as [j k|j|j|j o|j k|j]; cbn [subject] in He; subst j; cbn [step fst];
+    try congruence.
+  - unfold call. rewrite Hi. exact Hi.
+  - unfold complete. destruct (gate s i); exact Hi.
+  - unfold call_panic. rewrite Hi. exact Hi.
+  - exact Hi.
 Qed.
 
 Lemma waiter_run evs s i l :
@@ -482,55 +583,72 @@ Proof.
   - intros e' Hin. apply Hq. right. exact Hin.
 Qed.
 
+(* an armed Clone panic comes only from Arm *)
+Lemma bomb_frame s e l : e <> Arm l -> bomb s l = false -> bomb (step_st s e) l = false.
+Proof.
+  intros Ha Hb. unfold step_st. destruct e as [i k|i|i|i o|i k|i]; cbn [step fst].
+  - unfold call. destruct (cs s i); try exact Hb. destruct (lookup k (reqs s)); exact Hb.
+  - unfold poll. cbn. destruct (cs s i) as [|k|l'| |]; cbn [fst]; try exact Hb.
+    + destruct (gate s i) as [[]|]; try destruct (bomb s i) eqn:Eb; cbn [fst bomb]; try exact Hb;
+        unfold close_key; cbn; destruct (lookup k (reqs s)); cbn; try exact Hb;
+        (destruct (Nat.eq_dec l i) as [->|Hn]; [apply upd_same|rewrite upd_other by exact Hn; exact Hb]).
+    + destruct (chan s l'); try destruct (bomb s l') eqn:Eb; cbn [fst bomb]; try exact Hb.
+      destruct (Nat.eq_dec l l') as [->|Hn]; [apply upd_same|rewrite upd_other by exact Hn; exact Hb].
+  - unfold drop. cbn. destruct (cs s i) as [|k|l'| |]; try exact Hb; cbn [bomb].
+    unfold close_key; cbn; destruct (lookup k (reqs s)); exact Hb.
+  - unfold complete. destruct (gate s i); exact Hb.
+  - unfold call_panic. destruct (cs s i); try exact Hb.
+    destruct (lookup k (reqs s)); cbn [fst]; [|exact Hb].
+    unfold call. destruct (cs s i); try exact Hb. destruct (lookup k (reqs s)); exact Hb.
+  - cbn. rewrite upd_other; [exact Hb|]. intros ->. apply Ha. reflexivity.
+Qed.
+
+Lemma bomb_run evs s l :
+  (forall e, In e evs -> e <> Arm l) -> bomb s l = false -> bomb (fold_left step_st evs s) l = false.
+Proof.
+  revert s. induction evs as [|e t IH]; intros s Hq Hb; cbn [fold_left]; [exact Hb|].
+  apply IH.
+  - intros e' Hin. apply Hq. right. exact Hin.
+  - apply bomb_frame; [apply Hq; left; reflexivity|exact Hb].
+Qed.
+
+Lemma ev_eq_poll_drop e i : {e = Poll i} + {e = Drop i} + {e <> Poll i /\ e <> Drop i}.
+Proof.
+  destruct e as [j k|j|j|j o|j k|j]; try (right; split; discriminate).
+  - destruct (Nat.eq_dec j i) as [->|Hn]; [left; left; reflexivity|right; split; congruence].
+  - destruct (Nat.eq_dec j i) as [->|Hn]; [left; right; reflexivity|right; split; congruence].
+Qed.
+
+Lemma cs_finished s e l : (cs s l = Done \/ cs s l = Dropped) -> cs (step_st s e) l = cs s l.
+Proof.
+  intros Hl.
+  destruct (Nat.eq_dec (subject e) l) as [He|He]; [|apply cs_other; exact He].
+  unfold step_st. destruct e as [i k|i|i|i o|i k|i]; cbn [subject] in He; subst i; cbn [step fst].
+  - unfold call. destruct Hl as [Hl|Hl]; rewrite Hl; auto.
+  - unfold poll. cbn. destruct Hl as [Hl|Hl]; rewrite Hl; auto.
+  - unfold drop. cbn. destruct Hl as [Hl|Hl]; rewrite Hl; auto.
+  - unfold complete. destruct (gate s l); auto.
+  - unfold call_panic. destruct Hl as [Hl|Hl]; rewrite Hl; auto.
+  - auto.
+Qed.
+
 (* a caller that did not lead at its call() never makes an inner call *)
 Lemma never_leads_step s e i :
   cs s i <> Idle -> (forall k, cs s i <> Leading k) ->
   cs (step_st s e) i <> Idle /\ (forall k, cs (step_st s e) i <> Leading k).
 Proof.
   intros Hn Hl.
-  destruct (cs s i) as [|k|l| |] eqn:Ei; try congruence; try (exfalso; exact (Hl k eq_refl)).
-    assert (Hc : cs (step_st s e) i = Waiting l \/ cs (step_st s e) i = Done \/ cs (step_st s e) i = Dropped).
-    { destruct e as [j k|j|j|j o].
-      - left. apply waiter_frame; congruence.
-      - destruct (Nat.eq_dec j i) as [->|Hne]; [|left; apply waiter_frame; congruence].
-        pose proof (poll_waiter s i l Ei) as Hp. cbv zeta in Hp.
-        destruct (chan s l); intuition.
-      - destruct (Nat.eq_dec j i) as [->|Hne]; [|left; apply waiter_frame; congruence].
-        right. right. unfold step_st. cbn [step fst]. unfold drop. cbn. rewrite Ei. cbn. apply upd_same.
-      - left. apply waiter_frame; congruence. }
-    destruct Hc as [Hc|[Hc|Hc]]; rewrite Hc; split; intros; discriminate.
-  - assert (Hc : cs (step_st s e) i = Done).
-    { unfold step_st. destruct e as [j k|j|j|j o]; cbn [step fst].
-      - unfold call. destruct (cs s j) eqn:Ej; try exact Ei.
-        assert (i <> j) by (intros ->; congruence).
-        destruct (lookup k (reqs s)); cbn; rewrite upd_other by assumption; exact Ei.
-      - unfold poll. cbn. destruct (cs s j) as [|k|l'| |] eqn:Ej; cbn [fst]; try exact Ei;
-          assert (i <> j) by (intros ->; congruence).
-        + destruct (gate s j) as [[]|]; cbn [fst]; try exact Ei;
-            unfold close_key; cbn; destruct (lookup k (reqs s)); cbn; rewrite upd_other by assumption; exact Ei.
-        + destruct (chan s l'); cbn; try exact Ei; rewrite upd_other by assumption; exact Ei.
-      - unfold drop. cbn. destruct (cs s j) as [|k|l'| |] eqn:Ej; try exact Ei;
-          assert (i <> j) by (intros ->; congruence).
-        + unfold close_key; cbn; destruct (lookup k (reqs s)); cbn; rewrite upd_other by assumption; exact Ei.
-        + cbn. rewrite upd_other by assumption. exact Ei.
-      - unfold complete. destruct (gate s j); exact Ei. }
-    rewrite Hc. split; intros; discriminate.
-  - assert (Hc : cs (step_st s e) i = Dropped).
-    { unfold step_st. destruct e as [j k|j|j|j o]; cbn [step fst].
-      - unfold call. destruct (cs s j) eqn:Ej; try exact Ei.
-        assert (i <> j) by (intros ->; congruence).
-        destruct (lookup k (reqs s)); cbn; rewrite upd_other by assumption; exact Ei.
-      - unfold poll. cbn. destruct (cs s j) as [|k|l'| |] eqn:Ej; cbn [fst]; try exact Ei;
-          assert (i <> j) by (intros ->; congruence).
-        + destruct (gate s j) as [[]|]; cbn [fst]; try exact Ei;
-            unfold close_key; cbn; destruct (lookup k (reqs s)); cbn; rewrite upd_other by assumption; exact Ei.
-        + destruct (chan s l'); cbn; try exact Ei; rewrite upd_other by assumption; exact Ei.
-      - unfold drop. cbn. destruct (cs s j) as [|k|l'| |] eqn:Ej; try exact Ei;
-          assert (i <> j) by (intros ->; congruence).
-        + unfold close_key; cbn; destruct (lookup k (reqs s)); cbn; rewrite upd_other by assumption; exact Ei.
-        + cbn. rewrite upd_other by assumption. exact Ei.
-      - unfold complete. destruct (gate s j); exact Ei. }
-    rewrite Hc. split; intros; discriminate.
+  assert (Hc : (exists l, cs (step_st s e) i = Waiting l) \/ cs (step_st s e) i = Done \/
+               cs (step_st s e) i = Dropped).
+  { destruct (cs s i) as [|k|l| |] eqn:Ei; try congruence; try (exfalso; exact (Hl k eq_refl)).
+    - destruct (ev_eq_poll_drop e i) as [[ -> | -> ]|[Hp Hd]].
+      + pose proof (poll_waiter s i l Ei) as Hp. cbv zeta in Hp.
+        destruct (chan s l); try destruct (bomb s l); intuition eauto.
+      + right. right. unfold step_st. cbn [step fst]. unfold drop. cbn. rewrite Ei. cbn. apply upd_same.
+      + left. exists l. apply waiter_frame; assumption.
+    - right. left. rewrite <- Ei. apply cs_finished. left. exact Ei.
+    - right. right. rewrite <- Ei. apply cs_finished. right. exact Ei. }
+  destruct Hc as [[l Hc]|[Hc|Hc]]; rewrite Hc; split; intros; discriminate.
 Qed.
 
 Lemma never_leads_run evs s i :
@@ -543,21 +661,15 @@ Proof.
     apply IH; [apply inv_step; exact H|exact Hn'|exact Hl'].
 Qed.
 
-Lemma run_app evs1 evs2 : run (evs1 ++ evs2) = fold_left step_st evs2 (run evs1).
-Proof. unfold run. apply fold_left_app. Qed.
-
-Lemma inv_fold evs s : Inv s -> Inv (fold_left step_st evs s).
-Proof. intros H. apply fold_left_inv; [exact H|intros; apply inv_step; assumption]. Qed.
-
 (* ---------- C11: the clauses ---------- *)
-Lemma waiter_makes_no_call evs l k i :
-  let s := run evs in
+Lemma waiter_makes_no_call b evs l k i :
+  let s := run_b b evs in
   cs s l = Leading k -> cs s i = Idle ->
   let s2 := step_st s (Call i k) in
   cs s2 i = Waiting l /\ inflight s2 = inflight s /\
   forall evs2, ~ In i (inflight (fold_left step_st evs2 s2)).
 Proof.
-  intros s Hl Hi s2. pose proof (inv_run evs) as H. fold s in H.
+  intros s Hl Hi s2. pose proof (inv_run_b b evs) as H. fold s in H.
   destruct (call_waiter s i l k H Hi Hl) as (Hc & Hf & _). fold s2 in Hc, Hf.
   repeat split; try assumption. intros evs2. apply never_leads_run.
   - apply inv_step. exact H.
@@ -565,50 +677,84 @@ Proof.
   - rewrite Hc. discriminate.
 Qed.
 
-Lemma waiters_share evs l k i o evs2 :
-  let s := run evs in
-  cs s l = Leading k -> cs s i = Waiting l -> gate s l = Some o -> o <> OPanic ->
-  (forall e, In e evs2 -> e <> Poll i /\ e <> Drop i) ->
+(* a waiter in front of a channel that holds the leader's result *)
+Lemma sent_delivers b evs i l o evs2 :
+  let s := run_b b evs in
+  cs s i = Waiting l -> chan s l = Sent o -> bomb s l = false ->
+  (forall e, In e evs2 -> e <> Poll i /\ e <> Drop i /\ e <> Arm l) ->
+  snd (step (fold_left step_st evs2 s) (Poll i)) = {| r := code o; val := Z.of_nat l |}.
+Proof.
+  intros s Hi Hc Hb Hq. pose proof (inv_run_b b evs) as H. fold s in H.
+  destruct (p_sent _ _ _ _ _ H l o Hc) as [_ Hd].
+  destruct (frozen_run evs2 s l H (or_introl Hd)) as [Hc2 _].
+  assert (Hi2 : cs (fold_left step_st evs2 s) i = Waiting l).
+  { apply waiter_run; [exact Hi|]. intros e Hin. destruct (Hq e Hin) as (?&?&?). auto. }
+  assert (Hb2 : bomb (fold_left step_st evs2 s) l = false).
+  { apply bomb_run; [|exact Hb]. intros e Hin. destruct (Hq e Hin) as (?&?&?). auto. }
+  pose proof (poll_waiter _ i l Hi2) as Hp. cbv zeta in Hp.
+  rewrite Hc2, Hc, Hb2 in Hp. apply Hp.
+Qed.
+
+Lemma waiters_share b evs l k i o evs2 :
+  let s := run_b b evs in
+  cs s l = Leading k -> cs s i = Waiting l -> gate s l = Some o -> o <> OPanic -> bomb s l = false ->
+  (forall e, In e evs2 -> e <> Poll i /\ e <> Drop i /\ e <> Arm l) ->
   snd (step s (Poll l)) = {| r := code o; val := Z.of_nat l |} /\
   snd (step (fold_left step_st evs2 (step_st s (Poll l))) (Poll i)) =
     {| r := code o; val := Z.of_nat l |}.
 Proof.
-  intros s Hl Hi Hg Ho Hq. pose proof (inv_run evs) as H. fold s in H.
-  destruct (poll_leader_finish s l k o H Hl Hg Ho) as (Hr & Hch & Hd & _). cbv zeta in *.
+  intros s Hl Hi Hg Ho Hb Hq. pose proof (inv_run_b b evs) as H. fold s in H.
+  destruct (poll_leader_finish s l k o H Hl Hg Ho Hb) as (Hr & Hch & Hd & _ & _ & Hbb). cbv zeta in *.
   split; [exact Hr|].
-  set (s1 := step_st s (Poll l)) in *.
-  assert (H1 : Inv s1) by (apply inv_step; exact H).
   assert (Hil : i <> l) by (intros ->; congruence).
-  assert (Hi1 : cs s1 i = Waiting l).
-  { apply waiter_frame; [exact Hi|congruence|discriminate]. }
-  destruct (frozen_run evs2 s1 l H1 (or_introl Hd)) as [Hc2 _].
-  pose proof (waiter_run evs2 s1 i l Hi1 Hq) as Hi2.
-  pose proof (poll_waiter _ i l Hi2) as Hp. cbv zeta in Hp.
-  rewrite Hc2, Hch in Hp. apply Hp.
+  assert (E : step_st s (Poll l) = run_b b (evs ++ [Poll l])).
+  { rewrite run_b_app. reflexivity. }
+  rewrite E. apply (sent_delivers b (evs ++ [Poll l]) i l o evs2); rewrite <- ?E.
+  - apply waiter_frame; [exact Hi|congruence|discriminate].
+  - exact Hch.
+  - rewrite Hbb. exact Hb.
+  - exact Hq.
 Qed.
 
-Lemma free_key_leads evs k j :
-  let s := run evs in
+(* the Clone made for one waiter panics: that waiter's poll panics, nobody else notices *)
+Lemma clone_panic_waiter b evs i l o :
+  let s := run_b b evs in
+  cs s i = Waiting l -> chan s l = Sent o -> bomb s l = true ->
+  let s1 := step_st s (Poll i) in
+  snd (step s (Poll i)) = {| r := 5; val := -1 |} /\ cs s1 i = Done /\ bomb s1 l = false /\
+  chan s1 = chan s /\ reqs s1 = reqs s /\ inflight s1 = inflight s /\
+  (forall j, j <> i -> cs s1 j = cs s j).
+Proof.
+  intros s Hi Hc Hb s1. unfold s1, step_st. cbn [step]. unfold poll. cbn. rewrite Hi, Hc, Hb. cbn.
+  rewrite !upd_same. repeat split; auto. intros j Hj. apply upd_other. exact Hj.
+Qed.
+
+Lemma free_key_leads b evs k j :
+  let s := run_b b evs in
   (forall l, cs s l <> Leading k) -> cs s j = Idle ->
   let s2 := step_st s (Call j k) in
   cs s2 j = Leading k /\ inflight s2 = inflight s ++ [j] /\ chan s2 j = Open.
 Proof.
-  intros s Hf Hj s2. apply call_leader; [apply inv_run|exact Hj|exact Hf].
+  intros s Hf Hj s2. apply call_leader; [apply inv_run_b|exact Hj|exact Hf].
 Qed.
 
-Lemma leader_gone evs l k e :
-  let s := run evs in
-  cs s l = Leading k -> (e = Drop l \/ (e = Poll l /\ gate s l = Some OPanic)) ->
+Lemma leader_gone b evs l k e :
+  let s := run_b b evs in
+  cs s l = Leading k ->
+  (e = Drop l \/ (e = Poll l /\ gate s l = Some OPanic) \/
+   (e = Poll l /\ gate s l <> None /\ bomb s l = true)) ->
   let s1 := step_st s e in
   lookup k (reqs s1) = None /\ ~ In l (inflight s1) /\
+  (e = Poll l -> r (snd (step s e)) = 5) /\
   (forall j, cs s1 j = Idle ->
      cs (step_st s1 (Call j k)) j = Leading k /\
      inflight (step_st s1 (Call j k)) = inflight s1 ++ [j]) /\
   (forall i evs2, cs s i = Waiting l -> (forall e', In e' evs2 -> e' <> Poll i /\ e' <> Drop i) ->
      snd (step (fold_left step_st evs2 s1) (Poll i)) = {| r := 3; val := -1 |}).
 Proof.
-  intros s Hl He s1. pose proof (inv_run evs) as H. fold s in H.
-  destruct (leader_gone_step s l k e H Hl He) as (Hch & Hd & Hlk & Hfl & Hoth & _). fold s1 in Hch, Hd, Hlk, Hfl, Hoth.
+  intros s Hl He s1. pose proof (inv_run_b b evs) as H. fold s in H.
+  destruct (leader_gone_step s l k e H Hl He) as (Hch & Hd & Hlk & Hfl & Hoth & Hr5).
+  fold s1 in Hch, Hd, Hlk, Hfl, Hoth.
   assert (H1 : Inv s1) by (apply inv_step; exact H).
   repeat split; try assumption.
   - apply call_leader; [exact H1|assumption|]. apply lookup_free; assumption.
@@ -622,17 +768,31 @@ Proof.
     rewrite Hc2, Hch in Hp. apply Hp.
 Qed.
 
-Lemma fresh_after_completion evs l k o :
-  let s := run evs in
-  cs s l = Leading k -> gate s l = Some o -> o <> OPanic ->
+(* the leader's poll with its inner call finished: whichever way it ends (result, inner panic,
+   Clone panic), the key is free and the next call leads *)
+Lemma fresh_after_completion b evs l k o :
+  let s := run_b b evs in
+  cs s l = Leading k -> gate s l = Some o ->
   let s1 := step_st s (Poll l) in
   lookup k (reqs s1) = None /\ ~ In l (inflight s1) /\ (forall l', cs s1 l' <> Leading k) /\
   (forall j, cs s1 j = Idle ->
      cs (step_st s1 (Call j k)) j = Leading k /\
      inflight (step_st s1 (Call j k)) = inflight s1 ++ [j]).
 Proof.
-  intros s Hl Hg Ho s1. pose proof (inv_run evs) as H. fold s in H.
-  destruct (poll_leader_finish s l k o H Hl Hg Ho) as (_ & _ & _ & Hlk & Hfl). fold s1 in Hlk, Hfl.
+  intros s Hl Hg s1. pose proof (inv_run_b b evs) as H. fold s in H.
+  assert (Hx : lookup k (reqs s1) = None /\ ~ In l (inflight s1)).
+  { destruct (bomb s l) eqn:Hb; [|destruct o].
+    - destruct (leader_gone_step s l k (Poll l) H Hl) as (_ & _ & Hlk & Hfl & _).
+      + right. right. repeat split; congruence.
+      + split; assumption.
+    - destruct (poll_leader_finish s l k OOk H Hl Hg) as (_ & _ & _ & Hlk & Hfl & _); [discriminate|exact Hb|].
+      split; assumption.
+    - destruct (poll_leader_finish s l k OErr H Hl Hg) as (_ & _ & _ & Hlk & Hfl & _); [discriminate|exact Hb|].
+      split; assumption.
+    - destruct (leader_gone_step s l k (Poll l) H Hl) as (_ & _ & Hlk & Hfl & _).
+      + right. left. split; [reflexivity|exact Hg].
+      + split; assumption. }
+  destruct Hx as [Hlk Hfl].
   assert (H1 : Inv s1) by (apply inv_step; exact H).
   repeat split; try assumption.
   - apply lookup_free; assumption.
@@ -640,48 +800,51 @@ Proof.
   - apply call_leader; [exact H1|assumption|]. apply lookup_free; assumption.
 Qed.
 
-Lemma no_cross_key evs i l :
-  let s := run evs in
+Lemma no_cross_key b evs i l :
+  let s := run_b b evs in
   cs s i = Waiting l ->
   ckey s i = ckey s l /\ (exists k, ckey s i = Some k) /\
   (r (snd (step s (Poll i))) = 1 \/ r (snd (step s (Poll i))) = 2 ->
      val (snd (step s (Poll i))) = Z.of_nat l /\
      exists o, chan s l = Sent o /\ r (snd (step s (Poll i))) = code o) /\
   (forall e l0, e <> Poll l0 -> e <> Drop l0 -> (forall k, e <> Call l0 k) ->
-     chan (step_st s e) l0 = chan s l0).
+     (forall k, e <> CallPanic l0 k) -> chan (step_st s e) l0 = chan s l0).
 Proof.
-  intros s Hi. pose proof (inv_run evs) as H. fold s in H.
+  intros s Hi. pose proof (inv_run_b b evs) as H. fold s in H.
   destruct (p_wait _ _ _ _ _ H i l Hi) as (_ & Hk & Hex).
-  repeat split; try assumption.
-  - pose proof (poll_waiter s i l Hi) as Hp. cbv zeta in Hp.
-    destruct (chan s l); destruct Hp as [Hp _]; rewrite Hp in *; cbn in *; intuition; discriminate.
-  - pose proof (poll_waiter s i l Hi) as Hp. cbv zeta in Hp.
-    destruct (chan s l) as [| |o|]; destruct Hp as [Hp _]; rewrite Hp in *; cbn in *;
-      try (destruct H0; discriminate).
-    exists o. auto.
+  split; [exact Hk|]. split; [exact Hex|]. split.
+  - intros Hr. pose proof (poll_waiter s i l Hi) as Hp. cbv zeta in Hp.
+    destruct (chan s l) as [| |o|]; try destruct (bomb s l); destruct Hp as [Hp _];
+      rewrite Hp in *; cbn in *; try (destruct Hr; discriminate).
+    split; [reflexivity|]. exists o. auto.
   - intros e l0. apply chan_frame. exact H.
 Qed.
 
-Lemma no_wait_forever evs i l :
-  let s := run evs in
+Lemma no_wait_forever b evs i l :
+  let s := run_b b evs in
   cs s i = Waiting l ->
   (r (snd (step s (Poll i))) = 0 <-> exists k, cs s l = Leading k) /\
   (r (snd (step s (Poll i))) = 0 ->
-     woken (step_st s (Poll i)) i = true /\ cs (step_st s (Poll i)) i = Waiting l) /\
+     cs (step_st s (Poll i)) i = Waiting l /\ polled (step_st s (Poll i)) i = true /\
+     (b = true -> woken (step_st s (Poll i)) i = true)) /\
   (r (snd (step s (Poll i))) <> 0 -> cs (step_st s (Poll i)) i = Done).
 Proof.
-  intros s Hi. pose proof (inv_run evs) as H. fold s in H.
+  intros s Hi. pose proof (inv_run_b b evs) as H. fold s in H.
   destruct (p_wait _ _ _ _ _ H i l Hi) as (Hnc & _ & _).
   pose proof (p_open _ _ _ _ _ H l) as Hop.
   pose proof (poll_waiter s i l Hi) as Hp. cbv zeta in Hp.
+  assert (Hbusy : busy s = b) by apply busy_run_b.
   destruct (chan s l) as [| |o|] eqn:Ec; try congruence.
-  - destruct Hp as (Hp & Hc & Hw). rewrite Hp. cbn. split; [|split].
+  - destruct Hp as (Hp & Hc & Hpl & Hw). rewrite Hp. cbn. split; [|split].
     + split; [intros _; apply Hop; reflexivity|reflexivity].
-    + intros _. split; assumption.
+    + intros _. repeat split; try assumption. intros ->. apply Hw. exact Hbusy.
     + intros Hn. exfalso. apply Hn. reflexivity.
-  - destruct Hp as (Hp & Hc). rewrite Hp. cbn. split; [|split].
-    + split; [destruct o; discriminate|]. intros Hk. apply Hop in Hk. discriminate.
-    + intros Hz. destruct o; discriminate.
+  - assert (Hrr : r (snd (step s (Poll i))) <> 0 /\ cs (step_st s (Poll i)) i = Done).
+    { destruct (bomb s l); destruct Hp as (Hp & Hc & _); rewrite Hp; cbn; split; try exact Hc;
+        try discriminate; try (destruct o; discriminate). }
+    destruct Hrr as [Hr Hc]. split; [|split].
+    + split; [intros Hz; congruence|]. intros Hk. apply Hop in Hk. discriminate.
+    + intros Hz. congruence.
     + intros _. exact Hc.
   - destruct Hp as (Hp & Hc). rewrite Hp. cbn. split; [|split].
     + split; [discriminate|]. intros Hk. apply Hop in Hk. discriminate.
@@ -689,12 +852,335 @@ Proof.
     + intros _. exact Hc.
 Qed.
 
+(* once nobody leads, one round of polls resolves every waiter *)
+Lemma quiescent_one_round b evs i l :
+  let s := run_b b evs in
+  (forall j k, cs s j <> Leading k) -> cs s i = Waiting l ->
+  (r (snd (step s (Poll i))) = 1 \/ r (snd (step s (Poll i))) = 2 \/
+   r (snd (step s (Poll i))) = 3 \/ r (snd (step s (Poll i))) = 5) /\
+  cs (step_st s (Poll i)) i = Done.
+Proof.
+  intros s Hq Hi. pose proof (inv_run_b b evs) as H. fold s in H.
+  destruct (p_wait _ _ _ _ _ H i l Hi) as (Hnc & _ & _).
+  pose proof (p_open _ _ _ _ _ H l) as Hop.
+  pose proof (poll_waiter s i l Hi) as Hp. cbv zeta in Hp.
+  destruct (chan s l) as [| |o|] eqn:Ec; try congruence.
+  - exfalso. destruct Hop as [Hop _]. destruct (Hop eq_refl) as [k Hk]. exact (Hq l k Hk).
+  - destruct (p_sent _ _ _ _ _ H l o Ec) as [Ho _].
+    destruct (bomb s l); destruct Hp as (Hp & Hc & _); rewrite Hp; cbn; split; try exact Hc; auto.
+    destruct o; auto.
+  - destruct Hp as (Hp & Hc). rewrite Hp. cbn. auto.
+Qed.
+
+(* RecvError (a lagging receiver) never happens: no step reports it *)
+Lemma no_recv_error s e : r (snd (step s e)) <> 4.
+Proof.
+  destruct e as [i k|i|i|i o|i k|i]; cbn [step snd]; try (cbn; discriminate).
+  - unfold poll. cbn. destruct (cs s i) as [|k|l| |]; cbn; try discriminate.
+    + destruct (gate s i) as [[]|]; try destruct (bomb s i); cbn; discriminate.
+    + destruct (chan s l) as [| |[]|]; try destruct (bomb s l); cbn; discriminate.
+  - unfold call_panic. destruct (cs s i); cbn; try discriminate.
+    destruct (lookup k (reqs s)); cbn; discriminate.
+Qed.
+
+(* ---------- inner.call() panics ---------- *)
+Lemma sync_panic_frees_key b evs i k :
+  let s := run_b b evs in
+  cs s i = Idle ->
+  let s1 := step_st s (CallPanic i k) in
+  inflight s1 = inflight s /\ reqs s1 = reqs s /\
+  (forall l, cs s l = Leading k ->
+     cs s1 i = Waiting l /\ r (snd (step s (CallPanic i k))) = -1 /\ chan s1 = chan s) /\
+  ((forall l, cs s l <> Leading k) ->
+     r (snd (step s (CallPanic i k))) = 5 /\ cs s1 i = Done /\ chan s1 i = Closed /\
+     (forall j, j <> i -> cs s1 j = cs s j /\ chan s1 j = chan s j) /\
+     (forall l, cs s1 l <> Leading k) /\
+     forall j, cs s1 j = Idle ->
+       cs (step_st s1 (Call j k)) j = Leading k /\
+       inflight (step_st s1 (Call j k)) = inflight s1 ++ [j]).
+Proof.
+  intros s Hi s1. pose proof (inv_run_b b evs) as H. fold s in H.
+  assert (H1 : Inv s1) by (apply inv_step; exact H).
+  destruct (lookup k (reqs s)) as [l0|] eqn:El.
+  - assert (E : step s (CallPanic i k) = (call s i k, no_obs)).
+    { cbn [step]. unfold call_panic. rewrite Hi, El. reflexivity. }
+    unfold s1, step_st. rewrite E. cbn [fst snd]. unfold call. rewrite Hi, El. cbn.
+    apply (lookup_leader s k l0 H) in El.
+    split; [reflexivity|]. split; [reflexivity|]. split.
+    + intros l Hl. assert (l = l0).
+      { apply (lookup_leader s k l H) in Hl. apply (lookup_leader s k l0 H) in El. congruence. }
+      subst l. rewrite upd_same. auto.
+    + intros Hf. exfalso. exact (Hf l0 El).
+  - assert (E : step s (CallPanic i k) =
+                (mkSt (upd (cs s) i Done) (reqs s) (upd (chan s) i Closed) (inflight s) (gate s)
+                      (woken s) (polled s) (upd (ckey s) i (Some k)) (bomb s) (busy s),
+                 {| r := 5; val := -1 |})).
+    { cbn [step]. unfold call_panic. rewrite Hi, El.
+      rewrite remove_key_head, (remove_key_notin _ _ El). reflexivity. }
+    unfold s1, step_st in *. rewrite E in *. cbn [fst snd] in *. cbn [inflight reqs cs chan r].
+    split; [reflexivity|]. split; [reflexivity|]. split.
+    + intros l Hl. apply (lookup_leader s k l H) in Hl. congruence.
+    + intros _.
+      assert (Hfree : forall l, upd (cs s) i Done l <> Leading k).
+      { intros l. destruct (Nat.eq_dec l i) as [->|Hn]; [rewrite upd_same; discriminate|].
+        rewrite upd_other by exact Hn. apply (lookup_free s k H). exact El. }
+      rewrite !upd_same. split; [reflexivity|]. split; [reflexivity|]. split; [reflexivity|].
+      split; [|split; [exact Hfree|]].
+      * intros j Hj. rewrite !upd_other by exact Hj. auto.
+      * intros j Hj. destruct (call_leader _ j k H1 Hj Hfree) as (Ha & Hb & _). auto.
+Qed.
+
+(* ---------- cancelling a waiter concerns nobody else ---------- *)
+Lemma waiter_cancel_is_local b evs i l :
+  let s := run_b b evs in
+  cs s i = Waiting l ->
+  let s1 := step_st s (Drop i) in
+  cs s1 i = Dropped /\ (forall j, j <> i -> cs s1 j = cs s j) /\
+  reqs s1 = reqs s /\ chan s1 = chan s /\ inflight s1 = inflight s /\ bomb s1 = bomb s /\
+  forall evs2, ~ In i (inflight (fold_left step_st evs2 s1)).
+Proof.
+  intros s Hi s1. pose proof (inv_run_b b evs) as H. fold s in H.
+  assert (H1 : Inv s1) by (apply inv_step; exact H).
+  assert (E : s1 = mkSt (upd (cs s) i Dropped) (reqs s) (chan s) (inflight s) (gate s)
+                        (upd (woken s) i false) (polled s) (ckey s) (bomb s) (busy s)).
+  { unfold s1, step_st. cbn [step fst]. unfold drop. cbn. rewrite Hi. reflexivity. }
+  assert (Hc : cs s1 i = Dropped) by (rewrite E; cbn; apply upd_same).
+  assert (Hnl : forall evs2, ~ In i (inflight (fold_left step_st evs2 s1))).
+  { intros evs2. apply never_leads_run; [exact H1|rewrite Hc; discriminate|rewrite Hc; discriminate]. }
+  repeat split; try exact Hc; try exact Hnl; try (rewrite E; reflexivity).
+  intros j Hj. rewrite E. cbn. apply upd_other. exact Hj.
+Qed.
+
+(* ---------- no lost wake-up ---------- *)
+Definition wait_ok (s : st) (i l : nat) : Prop :=
+  woken s i = true \/ (busy s = false /\ exists k, cs s l = Leading k).
+
+Record Q (s : st) : Prop := {
+  q_idle : forall i, cs s i = Idle -> polled s i = false;
+  q_wait : forall i l, cs s i = Waiting l -> polled s i = true -> wait_ok s i l;
+  q_lead : forall i k, cs s i = Leading k -> polled s i = true -> gate s i <> None -> woken s i = true
+}.
+
+Lemma Q_init b : Q (init_b b).
+Proof. constructor; cbn; intros; try discriminate; reflexivity. Qed.
+
+(* a call(): the caller was Idle (never polled); nothing else moves *)
+Lemma Q_enter s i c ck rq ch fl :
+  Inv s -> Q s -> cs s i = Idle -> c <> Idle ->
+  Q (mkSt (upd (cs s) i c) rq ch fl (gate s) (woken s) (polled s) ck (bomb s) (busy s)).
+Proof.
+  intros H [Qi Qw Ql] Hi Hc. pose proof (Qi i Hi) as Hpi. constructor; cbn.
+  - intros j. cases_on j i; [congruence|apply Qi].
+  - intros j l. cases_on j i; [congruence|]. intros Hj Hp.
+    destruct (Qw j l Hj Hp) as [Hw|[Hb [k Hk]]]; [left; exact Hw|right].
+    split; [exact Hb|]. exists k. cbn. rewrite upd_other; [exact Hk|]. intros ->. congruence.
+  - intros j k. cases_on j i; [congruence|apply Ql].
+Qed.
+
+(* the entry of leader l is removed (message or not), l becomes c (Done / Dropped) *)
+Lemma Q_leader_end s l k c m :
+  Q s -> cs s l = Leading k -> lookup k (reqs s) = Some l -> (c = Done \/ c = Dropped) ->
+  let s0 := mkSt (cs s) (reqs s) (chan s) (inflight s) (gate s) (upd (woken s) l false)
+                 (polled s) (ckey s) (bomb s) (busy s) in
+  let s1 := close_key s0 k m in
+  forall fl bm,
+  Q (mkSt (upd (cs s1) l c) (reqs s1) (chan s1) fl (gate s1) (woken s1) (polled s1) (ckey s1) bm (busy s1)).
+Proof.
+  intros [Qi Qw Ql] Hl Hlk Hc s0 s1 fl bm.
+  unfold s1, close_key. cbn. rewrite Hlk. cbn.
+  assert (Hmono : forall j, j <> l -> woken s j = true ->
+                  (if busy s then upd (woken s) l false else wake_waiters s0 l) j = true).
+  { intros j Hj Hw. destruct (busy s); [rewrite upd_other by exact Hj; exact Hw|].
+    unfold wake_waiters. cbn. destruct (cs s j); try (rewrite upd_other by exact Hj; exact Hw).
+    destruct (Nat.eqb l0 l && polled s j); [reflexivity|rewrite upd_other by exact Hj; exact Hw]. }
+  constructor; cbn.
+  - intros j. cases_on j l; [destruct Hc; congruence|apply Qi].
+  - intros j l0. cases_on j l; [destruct Hc; congruence|]. intros Hj Hp.
+    destruct (Qw j l0 Hj Hp) as [Hw|[Hb [k0 Hk0]]].
+    + left. apply Hmono; assumption.
+    + destruct (Nat.eq_dec l0 l) as [->|Hn].
+      * left. rewrite Hb. unfold wake_waiters. cbn. rewrite Hj, Nat.eqb_refl, Hp. reflexivity.
+      * right. split; [exact Hb|]. exists k0. cbn. rewrite upd_other by exact Hn. exact Hk0.
+  - intros j k0. cases_on j l; [destruct Hc; congruence|]. intros Hj Hp Hg.
+    apply Hmono; [assumption|]. apply (Ql j k0); assumption.
+Qed.
+
+(* a waiter resolves, panics or is dropped *)
+Lemma Q_waiter_end s i l c bm :
+  Q s -> cs s i = Waiting l -> (c = Done \/ c = Dropped) ->
+  Q (mkSt (upd (cs s) i c) (reqs s) (chan s) (inflight s) (gate s) (upd (woken s) i false)
+          (polled s) (ckey s) bm (busy s)).
+Proof.
+  intros [Qi Qw Ql] Hi Hc. constructor; cbn.
+  - intros j. cases_on j i; [destruct Hc; congruence|apply Qi].
+  - intros j l0. cases_on j i; [destruct Hc; congruence|]. intros Hj Hp.
+    destruct (Qw j l0 Hj Hp) as [Hw|[Hb [k Hk]]]; [left; cbn; rewrite upd_other by assumption; exact Hw|right].
+    split; [exact Hb|]. exists k. cbn. rewrite upd_other; [exact Hk|]. intros ->. congruence.
+  - intros j k. cases_on j i; [destruct Hc; congruence|apply Ql].
+Qed.
+
+(* only the wake flag of a caller that is neither waiting nor leading is cleared *)
+Lemma Q_reset s i :
+  Q s -> (forall l, cs s i <> Waiting l) -> (forall k, cs s i <> Leading k) ->
+  Q (mkSt (cs s) (reqs s) (chan s) (inflight s) (gate s) (upd (woken s) i false)
+          (polled s) (ckey s) (bomb s) (busy s)).
+Proof.
+  intros [Qi Qw Ql] Hw Hl. constructor; cbn.
+  - exact Qi.
+  - intros j l Hj Hp. assert (j <> i) by (intros ->; exact (Hw l Hj)).
+    destruct (Qw j l Hj Hp) as [Hx|Hx]; [left; cbn; rewrite upd_other by assumption; exact Hx|right; exact Hx].
+  - intros j k Hj Hp Hg. assert (j <> i) by (intros ->; exact (Hl k Hj)).
+    rewrite upd_other by assumption. apply (Ql j k); assumption.
+Qed.
+
+Lemma Q_step s e : Inv s -> Q s -> Q (step_st s e).
+Proof.
+  intros H HQ. unfold step_st. destruct e as [i k|i|i|i o|i k|i]; cbn [step fst].
+  - unfold call. destruct (cs s i) eqn:Ei; try exact HQ.
+    destruct (lookup k (reqs s)); apply Q_enter; auto; discriminate.
+  - unfold poll. cbn. destruct (cs s i) as [|k|l| |] eqn:Ei; cbn [fst].
+    + apply Q_reset; [exact HQ|rewrite Ei; discriminate|rewrite Ei; discriminate].
+    + assert (Hlk : lookup k (reqs s) = Some i) by (apply lookup_leader; assumption).
+      destruct (gate s i) as [[]|] eqn:Eg; [destruct (bomb s i) eqn:Eb|destruct (bomb s i) eqn:Eb| |];
+        cbn [fst]; try (apply (Q_leader_end s i k Done); auto).
+      (* pending leader *)
+      destruct HQ as [Qi Qw Ql]. constructor; cbn.
+      * intros j Hj. cases_on j i; [congruence|apply Qi; exact Hj].
+      * intros j l Hj Hp. assert (j <> i) by (intros ->; congruence).
+        rewrite upd_other in Hp by assumption.
+        destruct (Qw j l Hj Hp) as [Hx|Hx]; [left; cbn; rewrite upd_other by assumption; exact Hx|right; exact Hx].
+      * intros j k0 Hj Hp Hg. cases_on j i; [congruence|]. apply (Ql j k0); assumption.
+    + destruct (chan s l) as [| |o|] eqn:Ec; [| |destruct (bomb s l) eqn:Eb|]; cbn [fst];
+        try (apply (Q_waiter_end s i l Done); auto).
+      * (* NoChan: not reachable *)
+        exfalso. destruct (p_wait _ _ _ _ _ H i l Ei) as [Hn _]. exact (Hn Ec).
+      * (* Open: pending waiter *)
+        assert (Hll : exists k, cs s l = Leading k) by (apply (p_open _ _ _ _ _ H); exact Ec).
+        destruct HQ as [Qi Qw Ql]. constructor; cbn.
+        -- intros j Hj. cases_on j i; [congruence|apply Qi; exact Hj].
+        -- intros j l0 Hj Hp. destruct (Nat.eq_dec j i) as [->|Hn].
+           ++ assert (l0 = l) by congruence. subst l0. unfold wait_ok. cbn.
+              destruct (busy s); [left; apply upd_same|right; auto].
+           ++ rewrite upd_other in Hp by exact Hn.
+              destruct (Qw j l0 Hj Hp) as [Hx|Hx]; [left; cbn|right; exact Hx].
+              destruct (busy s); rewrite ?upd_other by exact Hn; exact Hx.
+        -- intros j k0 Hj Hp Hg. assert (j <> i) by (intros ->; congruence).
+           rewrite upd_other in Hp by assumption.
+           destruct (busy s); rewrite ?upd_other by assumption; apply (Ql j k0); assumption.
+    + apply Q_reset; [exact HQ|rewrite Ei; discriminate|rewrite Ei; discriminate].
+    + apply Q_reset; [exact HQ|rewrite Ei; discriminate|rewrite Ei; discriminate].
+  - unfold drop. cbn. destruct (cs s i) as [|k|l| |] eqn:Ei.
+    + apply Q_reset; [exact HQ|rewrite Ei; discriminate|rewrite Ei; discriminate].
+    + assert (Hlk : lookup k (reqs s) = Some i) by (apply lookup_leader; assumption).
+      apply (Q_leader_end s i k Dropped); auto.
+    + apply (Q_waiter_end s i l Dropped); auto.
+    + apply Q_reset; [exact HQ|rewrite Ei; discriminate|rewrite Ei; discriminate].
+    + apply Q_reset; [exact HQ|rewrite Ei; discriminate|rewrite Ei; discriminate].
+  - unfold complete. destruct (gate s i) eqn:Eg; [exact HQ|].
+    destruct HQ as [Qi Qw Ql]. constructor; cbn.
+    + exact Qi.
+    + intros j l Hj Hp. destruct (Qw j l Hj Hp) as [Hx|Hx]; [left; cbn|right; exact Hx].
+      destruct (cs s i); try exact Hx. destruct (polled s i); [|exact Hx].
+      destruct (Nat.eq_dec j i) as [->|Hn]; [apply upd_same|rewrite upd_other by exact Hn; exact Hx].
+    + intros j k Hj Hp Hg. destruct (Nat.eq_dec j i) as [->|Hn].
+      * rewrite Hj, Hp. apply upd_same.
+      * rewrite upd_other in Hg by exact Hn. pose proof (Ql j k Hj Hp Hg) as Hx.
+        destruct (cs s i); try exact Hx. destruct (polled s i); [|exact Hx].
+        rewrite upd_other by exact Hn. exact Hx.
+  - unfold call_panic. destruct (cs s i) eqn:Ei; try exact HQ.
+    destruct (lookup k (reqs s)) eqn:El; cbn [fst].
+    + unfold call. rewrite Ei, El. apply Q_enter; auto; discriminate.
+    + apply Q_enter; auto; discriminate.
+  - destruct HQ as [Qi Qw Ql]. constructor; cbn; assumption.
+Qed.
+
+Lemma Q_run_b b evs : Inv (run_b b evs) /\ Q (run_b b evs).
+Proof.
+  unfold run_b. apply (fold_left_inv step_st (fun s => Inv s /\ Q s)).
+  - split; [apply P_init|apply Q_init].
+  - intros s e [H HQ]. split; [apply inv_step; exact H|apply Q_step; assumption].
+Qed.
+
+(* Every request that has returned Pending is either woken (its executor will poll it) or is
+   waiting for something that has not happened yet: a waiter for its leader's fate (only when
+   waiters do not spin), a leader for its inner call. *)
+Lemma no_lost_wakeup b evs :
+  let s := run_b b evs in
+  (forall i, cs s i = Idle -> polled s i = false) /\
+  (forall i l, cs s i = Waiting l -> polled s i = true ->
+     woken s i = true \/ (b = false /\ exists k, cs s l = Leading k)) /\
+  (forall i k, cs s i = Leading k -> polled s i = true -> gate s i <> None -> woken s i = true).
+Proof.
+  intros s. destruct (Q_run_b b evs) as [_ [Qi Qw Ql]]. fold s in Qi, Qw, Ql.
+  split; [exact Qi|]. split; [|exact Ql].
+  intros i l Hi Hp. destruct (Qw i l Hi Hp) as [Hx|[Hb Hk]]; [left; exact Hx|right].
+  split; [|exact Hk]. unfold s in Hb. rewrite busy_run_b in Hb. exact Hb.
+Qed.
+
+Lemma waiter_woken_when_settled b evs i l e :
+  let s := run_b b evs in
+  cs s i = Waiting l -> polled s i = true ->
+  (exists k, cs s l = Leading k) -> (forall k, cs (step_st s e) l <> Leading k) ->
+  woken (step_st s e) i = true /\ cs (step_st s e) i = Waiting l.
+Proof.
+  intros s Hi Hp [k Hl] Hn.
+  assert (Hsub : subject e = l).
+  { destruct (Nat.eq_dec (subject e) l) as [He|He]; [exact He|].
+    exfalso. apply (Hn k). rewrite cs_other by exact He. exact Hl. }
+  assert (Hil : i <> l) by (intros ->; congruence).
+  assert (Hi1 : cs (step_st s e) i = Waiting l).
+  { rewrite cs_other; [exact Hi|]. congruence. }
+  assert (Hp1 : polled (step_st s e) i = true).
+  { unfold step_st. destruct e as [j k0|j|j|j o|j k0|j]; cbn [subject] in Hsub; subst j; cbn [step fst].
+    - unfold call. rewrite Hl. exact Hp.
+    - unfold poll. cbn. rewrite Hl. destruct (gate s l) as [[]|]; try destruct (bomb s l); cbn [fst polled];
+        first [rewrite upd_other by exact Hil; exact Hp
+              |unfold close_key; cbn; destruct (lookup k (reqs s)); cbn; exact Hp].
+    - unfold drop. cbn. rewrite Hl. cbn [polled]. unfold close_key; cbn; destruct (lookup k (reqs s)); cbn; exact Hp.
+    - unfold complete. destruct (gate s l); exact Hp.
+    - unfold call_panic. rewrite Hl. exact Hp.
+    - exact Hp. }
+  split; [|exact Hi1].
+  assert (Hs : step_st s e = run_b b (evs ++ [e])) by (rewrite run_b_app; reflexivity).
+  destruct (no_lost_wakeup b (evs ++ [e])) as (_ & Hw & _). rewrite <- Hs in Hw.
+  destruct (Hw i l Hi1 Hp1) as [Hx|[_ [k1 Hk1]]]; [exact Hx|].
+  exfalso. exact (Hn k1 Hk1).
+Qed.
+
+(* ---------- the trace run_script prints is the run of step ---------- *)
+Lemma run_evs_row total evs : forall s k e,
+  nth_error evs k = Some e ->
+  firstn 5 (skipn (5 * k)%nat (run_evs total s evs)) =
+    row total (step_st (fold_left step_st (firstn k evs) s) e)
+        (snd (step (fold_left step_st (firstn k evs) s) e)).
+Proof.
+  induction evs as [|e0 t IH]; intros s k e Hk; [destruct k; discriminate|].
+  destruct k as [|k].
+  - cbn in Hk. injection Hk as ->. reflexivity.
+  - cbn [nth_error] in Hk. replace (5 * S k)%nat with (5 + 5 * k)%nat by lia.
+    cbn [run_evs]. cbv zeta. unfold row at 1. cbn [app]. cbn [Nat.add skipn firstn fold_left].
+    apply (IH (step_st s e0) k e Hk).
+Qed.
+
+Lemma trace_is_run sc k e :
+  let n := callers_of (zn sc 0) in
+  let evs := evs_of n (chunk3 (skipn 1 sc)) in
+  nth_error evs k = Some e ->
+  let s := run (firstn k evs) in
+  firstn 5 (skipn (5 * k)%nat (run_script sc)) =
+    [r (snd (step s e)); val (snd (step s e)); wake_mask (step_st s e) n;
+     flight_mask (step_st s e); bomb_mask (step_st s e) n].
+Proof.
+  intros n evs Hk s. unfold run_script. fold n. fold evs.
+  rewrite (run_evs_row n evs init k e Hk). reflexivity.
+Qed.
+
 (* ---------- non-vacuity ---------- *)
 Example ex_share :
   let evs := [Call 0 7; Call 1 7; Call 2 7; Poll 1; Complete 0 OErr] in
   let s := run evs in
   cs s 0%nat = Leading 7 /\ cs s 1%nat = Waiting 0 /\ cs s 2%nat = Waiting 0 /\
-  gate s 0%nat = Some OErr /\ inflight s = [0%nat] /\
+  gate s 0%nat = Some OErr /\ inflight s = [0%nat] /\ bomb s 0%nat = false /\
   snd (step (run (evs ++ [Poll 0; Call 3 7; Poll 1])) (Poll 2)) = {| r := 2; val := 0 |} /\
   cs (run (evs ++ [Poll 0; Call 3 7])) 3%nat = Leading 7.
 Proof. vm_compute. repeat split; reflexivity. Qed.
@@ -717,3 +1203,52 @@ Example ex_two_keys :
   inflight s = [0%nat] /\ cs s 2%nat = Waiting 0 /\ cs s 3%nat = Waiting 1 /\
   snd (step s (Poll 3)) = {| r := 1; val := 1 |} /\ snd (step s (Poll 2)) = {| r := 0; val := -1 |}.
 Proof. vm_compute. repeat split; reflexivity. Qed.
+
+(* inner.call() panics under the would-be leader 0: key 4 is free, 1 leads, 2 waits on 1 and shares its result;
+   a would-be waiter (3) does not reach the inner service *)
+Example ex_sync_panic :
+  let s := run [Call 9 5] in
+  cs s 0%nat = Idle /\ (forall l, l = 9%nat -> cs s l <> Leading 4) /\
+  snd (step s (CallPanic 0 4)) = {| r := 5; val := -1 |} /\
+  let s1 := run [Call 9 5; CallPanic 0 4; Call 1 4; Call 2 4; CallPanic 3 4; Complete 1 OOk; Poll 1] in
+  inflight s1 = [9%nat] /\ cs s1 2%nat = Waiting 1 /\ cs s1 3%nat = Waiting 1 /\
+  snd (step s1 (Poll 2)) = {| r := 1; val := 1 |} /\ snd (step s1 (Poll 3)) = {| r := 1; val := 1 |} /\
+  snd (step s1 (Poll 0)) = {| r := 9; val := -1 |}.
+Proof. vm_compute. repeat split; try reflexivity. intros l ->. discriminate. Qed.
+
+(* the Clone of the leader's result panics in the leader's completing poll: hypotheses of leader_gone (third case) *)
+Example ex_clone_panic_leader :
+  let s := run [Call 0 2; Call 1 2; Poll 1; Arm 0; Complete 0 OOk] in
+  cs s 0%nat = Leading 2 /\ gate s 0%nat <> None /\ bomb s 0%nat = true /\ cs s 1%nat = Waiting 0 /\
+  snd (step s (Poll 0)) = {| r := 5; val := -1 |} /\
+  snd (step (step_st s (Poll 0)) (Poll 1)) = {| r := 3; val := -1 |} /\
+  bomb (step_st s (Poll 0)) 0%nat = false /\
+  cs (step_st (step_st s (Poll 0)) (Call 2 2)) 2%nat = Leading 2.
+Proof. vm_compute. repeat split; try reflexivity. discriminate. Qed.
+
+(* ... or only when the channel's value is cloned for the first waiter: hypotheses of clone_panic_waiter *)
+Example ex_clone_panic_waiter :
+  let s := run [Call 0 1; Call 1 1; Call 2 1; Complete 0 OErr; Poll 0; Arm 0] in
+  cs s 1%nat = Waiting 0 /\ cs s 2%nat = Waiting 0 /\ chan s 0%nat = Sent OErr /\ bomb s 0%nat = true /\
+  snd (step s (Poll 1)) = {| r := 5; val := -1 |} /\
+  snd (step (step_st s (Poll 1)) (Poll 2)) = {| r := 2; val := 0 |}.
+Proof. vm_compute. repeat split; reflexivity. Qed.
+
+(* the two waiter disciplines: a pending waiter is woken at once (the code), or when its leader's fate is settled *)
+Example ex_wake_disciplines :
+  let evs := [Call 0 1; Call 1 1; Poll 1] in
+  woken (run_b true evs) 1%nat = true /\ woken (run_b false evs) 1%nat = false /\
+  polled (run_b false evs) 1%nat = true /\ cs (run_b false evs) 1%nat = Waiting 0 /\
+  cs (run_b false evs) 0%nat = Leading 1 /\
+  woken (run_b false (evs ++ [Drop 0])) 1%nat = true /\
+  woken (run_b false (evs ++ [Complete 0 OOk; Poll 0])) 1%nat = true /\
+  woken (run_b false (evs ++ [Complete 0 OOk])) 1%nat = false /\
+  snd (step (run_b false (evs ++ [Complete 0 OOk; Poll 0])) (Poll 1)) = {| r := 1; val := 0 |}.
+Proof. vm_compute. repeat split; reflexivity. Qed.
+
+Example ex_script :
+  run_script [103; 7; 0; 4; 5; 1; 4; 4; 1; 1; 1; 1; 0] =
+    [5; -1; 0; 0; 0;  -1; -1; 0; 2; 0;  -1; -1; 0; 2; 0;  2; 1; 0; 0; 0] /\
+  run_script [2; 5; 0; 0; 6; 0; 0; 4; 0; 1; 1; 0; 0; 5; 1; 0] =
+    [-1; -1; 0; 1; 0;  -1; -1; 0; 1; 1;  -1; -1; 0; 1; 1;  5; -1; 0; 0; 0;  -1; -1; 0; 2; 0].
+Proof. vm_compute. split; reflexivity. Qed.
